@@ -44,8 +44,15 @@ def run(ck: Check) -> int:
         for fl in (base | W.EXTMATCH, base | W.PATHNAME | W.EXTMATCH | W.GLOBSTAR, base | W.PATHNAME | W.NODOTDIR | W.DOTMATCH | W.EXTMATCH):
             for p in gen.exhaustive('a.*?/(|!)', 4 if quick else 5):
                 cases.append((p, fl, False))
+        seqs = list(gen.token_sequences(3 if quick else 4))
+        for fl in (base | W.PATHNAME | W.EXTMATCH | W.DOTMATCH | W.GLOBSTAR, base | W.PATHNAME | W.EXTMATCH | W.GLOBSTAR,
+                   base | W.PATHNAME | W.EXTMATCH | W.DOTMATCH | W.NODOTDIR, base | W.EXTMATCH, base | W.EXTMATCH | W.DOTMATCH,
+                   base | W.PATHNAME | W.EXTMATCH | W.MATCHBASE | W.GLOBSTAR | W.REALPATH):
+            for p in seqs:
+                cases.append((p, fl, False))
         streams.k1(sr, drv, cases)
-        sr.note = 'K1 regex text under {PATHNAME,GLOBSTAR,MATCHBASE,_EXTMATCHBASE,DOTMATCH,EXTMATCH,NODOTDIR}, dot-heavy alphabet'
+        sr.note = ('K1 regex text under {PATHNAME,GLOBSTAR,MATCHBASE,_EXTMATCHBASE,DOTMATCH,EXTMATCH,NODOTDIR}, dot-heavy alphabet; '
+                   'every sequence of <= 3 (thorough 4) parser-state tokens (groups with dotted alternatives, !(...), separators, stars) under 6 flag sets')
     ck.stream('K1-parse-text', s_k1)
 
     def s_k2(sr):
